@@ -384,6 +384,20 @@ def handleOffsets (j : Json) : Option Json := do
   some (Json.mkObj [("chars", Json.arr cs.toArray), ("linecol", Json.arr lc.toArray),
     ("starts", Json.arr (starts.map (fun (n : Nat) => Json.num n)).toArray)])
 
+def handleFormatFiles (j : Json) : Option Json := do
+  let fs ← (field? j "files") >>= getArr?
+  let fs ← fs.toList.mapM (fun f => do
+    let a ← getArr? f
+    some ((← getNat? a[0]!), (← getNat? a[1]!), (← getNat? a[2]!)))
+  let maxp ← (field? j "max_passes") >>= getNat?
+  let folder : Nat → Nat := fun f => ((fs.find? (fun p => p.1 == f)).map (·.2.1)).getD 0
+  let contents : Contents := fs.map (fun p => (p.1, p.2.2))
+  let fmt : Nat → Nat → Nat × Bool := fun _ k => if k > 0 then (k - 1, true) else (k, false)
+  let r := formatFiles fmt folder (fs.map (·.1)) maxp contents
+  some (Json.mkObj [("final", Json.arr ((fs.map (·.1)).map (fun (f : Nat) => Json.arr #[Json.num f, Json.num (getC r.1.contents f)])).toArray),
+    ("changed", Json.bool (formatFilesChanged r)),
+    ("passes", Json.arr (r.2.map (fun l => Json.arr (l.map (fun (n : Nat) => Json.num n)).toArray)).toArray)])
+
 def dispatch (j : Json) : Json :=
   match (field? j "suite") >>= getStr? with
   | some "sched" => (handleSched j).getD bad
@@ -401,6 +415,7 @@ def dispatch (j : Json) : Json :=
   | some "match" => (handleMatch j).getD bad
   | some "perms" => (handlePerms j).getD bad
   | some "offsets" => (handleOffsets j).getD bad
+  | some "formatfiles" => (handleFormatFiles j).getD bad
   | _ => bad
 
 partial def loop (h : IO.FS.Stream) (out : IO.FS.Stream) : IO Unit := do
